@@ -345,6 +345,8 @@ def monitor(sc, views, acting=None, users=None):
                         law = "history-soft-deleted-shown"
                     elif extra and len(got) > lim and all(q in inwin for q in extra):
                         law = "history-limit"
+                    elif extra and missing and all(q in inwin for q in extra):
+                        law = "history-message-missing"      # a visible message is left out, an older one fills the answer
                     elif extra:
                         law = "history-outside-range"
                     elif missing:
